@@ -88,6 +88,24 @@ func (re *resEngine) summarize(fr *vframe, successOnly bool, fields []string) *r
 	defer func() { re.active[key] = false }()
 
 	fn := fr.fn
+	// a receiver captured by a closure lives in a cell of this function: loads of the cell are the trie too
+	for _, b := range fn.Blocks {
+		for _, ins := range b.Instrs {
+			sto, ok := ins.(*ssa.Store)
+			if !ok || !fr.stVals[sto.Val] {
+				continue
+			}
+			al, ok := sto.Addr.(*ssa.Alloc)
+			if !ok || al.Referrers() == nil {
+				continue
+			}
+			for _, ref := range *al.Referrers() {
+				if ld, ok := ref.(*ssa.UnOp); ok && ld.Op == token.MUL && ld.X == ssa.Value(al) {
+					fr.stVals[ld] = true
+				}
+			}
+		}
+	}
 	n := len(fn.Blocks)
 	in := make([]fstate, n)
 	reached := make([]bool, n)
@@ -201,6 +219,37 @@ func (re *resEngine) summarize(fr *vframe, successOnly bool, fields []string) *r
 						if fr.verVals[x.Call.Args[pi]] {
 							nf.verVals[prm] = true
 						}
+					}
+				}
+				// a closure of the caller that captured the trie ("enterLevel := func(..) { st.levels = append(..) }")
+				if mc, isMC := x.Call.Value.(*ssa.MakeClosure); isMC {
+					for bi, bnd := range mc.Bindings {
+						if bi >= len(g.FreeVars) {
+							break
+						}
+						captured := fr.stVals[bnd]
+						byRef := false
+						if al, isAl := bnd.(*ssa.Alloc); isAl && al.Referrers() != nil {
+							for _, ref := range *al.Referrers() {
+								if sto, ok := ref.(*ssa.Store); ok && sto.Addr == ssa.Value(al) && fr.stVals[sto.Val] {
+									captured, byRef = true, true
+								}
+							}
+						}
+						if !captured {
+							continue
+						}
+						any = true
+						fv := g.FreeVars[bi]
+						if !byRef {
+							nf.stVals[fv] = true
+							continue
+						}
+						instrsOf(g, func(_ *ssa.BasicBlock, gi ssa.Instruction) {
+							if ld, ok := gi.(*ssa.UnOp); ok && ld.Op == token.MUL && ld.X == ssa.Value(fv) {
+								nf.stVals[ld] = true
+							}
+						})
 					}
 				}
 				if !any {
